@@ -48,6 +48,8 @@ type harness struct {
 	ccFails  []failure
 	ccRuns   int
 	ccCached int
+	ccPCH    int    // cases accepted through the precompiled-header fast path
+	pchDir   string // "" = no precompiled wuffs-base.c
 }
 
 type ccJob struct {
@@ -100,6 +102,28 @@ func (h *harness) compile(n int, csrc []byte) (key, out string) {
 			fmt.Fprintf(os.Stderr, "slow gcc case %d: %v (%d bytes of C)\n", n, d, len(csrc))
 		}
 	}()
+	// Fast path: the same translation unit with wuffs-base.c (24 000 lines,
+	// 3–5 s of gcc per case) read from a precompiled header. The three macros
+	// the generated prologue would define are given on the command line so
+	// that they are the same as when the header was precompiled. Only an
+	// acceptance is taken from this run; anything else is re-run the plain way.
+	if h.pchDir != "" {
+		head := csrc
+		if len(head) > 1024 {
+			head = head[:1024]
+		}
+		if m := moduleDefRe.FindSubmatch(head); m != nil {
+			_, _, err := hlib.RunCmd(5*time.Minute, h.ccDir, nil, nil, "gcc", "-fsyntax-only", "-x", "c",
+				"-DWUFFS_IMPLEMENTATION", "-DWUFFS_CONFIG__MODULES", "-D"+string(m[1]), "-DWUFFS_NONMONOLITHIC",
+				"-I", h.pchDir, "-I", h.genC, path)
+			if err == nil {
+				h.ccMu.Lock()
+				h.ccPCH++
+				h.ccMu.Unlock()
+				return "", ""
+			}
+		}
+	}
 	o, e, err := hlib.RunCmd(5*time.Minute, h.ccDir, nil, nil, "gcc", "-fsyntax-only", "-x", "c", "-DWUFFS_IMPLEMENTATION", "-I", h.genC, path)
 	if err == nil {
 		return "", ""
@@ -111,8 +135,32 @@ func (h *harness) compile(n int, csrc []byte) (key, out string) {
 	return gccKey(txt), firstLines(txt, 8)
 }
 
+// moduleDefRe finds the package's own module macro in the generated prologue
+// (internal/cgen genIncludes).
+var moduleDefRe = regexp.MustCompile(`(?m)^#define (WUFFS_CONFIG__MODULE__[A-Za-z0-9_]+)[ \t]*$`)
+
+// buildPCH precompiles gen/c/wuffs-base.c as the generated packages include
+// it; on any failure the plain (slow) compile is used for every case.
+func (h *harness) buildPCH() {
+	dir := filepath.Join(h.ccDir, "pch")
+	if err := os.MkdirAll(dir, 0o755); err != nil {
+		return
+	}
+	b, err := os.ReadFile(filepath.Join(h.genC, "wuffs-base.c"))
+	if err != nil || os.WriteFile(filepath.Join(dir, "wuffs-base.c"), b, 0o644) != nil {
+		return
+	}
+	_, _, err = hlib.RunCmd(5*time.Minute, dir, nil, nil, "gcc", "-x", "c-header",
+		"-DWUFFS_IMPLEMENTATION", "-DWUFFS_CONFIG__MODULES", "-DWUFFS_NONMONOLITHIC",
+		"wuffs-base.c", "-o", "wuffs-base.c.gch")
+	if err == nil {
+		h.pchDir = dir
+	}
+}
+
 func (h *harness) startCC(n int) {
-	h.ccJobs = make(chan ccJob, 64)
+	h.buildPCH()
+	h.ccJobs = make(chan ccJob, 256)
 	for i := 0; i < n; i++ {
 		h.ccWG.Add(1)
 		go func() {
@@ -418,6 +466,12 @@ func main() {
 		}
 	}
 
+	phaseWall := map[string]float64{}
+	phaseT0, phaseName := time.Now(), "setup"
+	phase := func(next string) {
+		phaseWall[phaseName] += time.Since(phaseT0).Seconds()
+		phaseT0, phaseName = time.Now(), next
+	}
 	pkgs := loadCorpus(r.Repo)
 	idents := []string{"foo", "bar", "x", "y", "args", "this", "src", "dst"}
 
@@ -452,17 +506,22 @@ func main() {
 		h.calib = pkgs[0].asCase("calibration")
 	}
 	nBaseline := len(batch)
+	phase("baseline")
 	h.runBatch(batch)
 	_ = nBaseline
 
 	// 1. every statement / declaration kind with one part missing or doubled; limits; deep nesting.
+	phase("stmt")
 	h.runBatch(stmtCases())
+	phase("boundary")
 	h.runBatch(boundaryCases(r.Thorough))
 	depths := []int{3, 62, 63, 64, 65, 254, 255, 256, 257, 1000, 8000}
 	if r.Thorough {
 		depths = append(depths, 16000, 30000)
 	}
+	phase("nest")
 	h.runBatch(nestCases(depths))
+	phase("random")
 
 	// 2. random streams.
 	nRandom, nProgram, nCorpus, maxPkg := 1000, 1000, 800, 200_000
@@ -484,21 +543,25 @@ func main() {
 	if r.Thorough {
 		nStruct, nQuoted, nExpr = 800, 4000, 12000
 	}
+	phase("expr")
 	batch = batch[:0]
 	for i := 0; i < nExpr; i++ {
 		batch = append(batch, genExprCase(r.Rand))
 	}
 	h.runBatch(batch)
+	phase("struct-graph")
 	batch = batch[:0]
 	for i := 0; i < nStruct; i++ {
 		batch = append(batch, genStructGraph(r.Rand))
 	}
 	h.runBatch(batch)
+	phase("quoted")
 	batch = batch[:0]
 	for i := 0; i < nQuoted; i++ {
 		batch = append(batch, genQuotedLiteral(r.Rand))
 	}
 	h.runBatch(batch)
+	phase("program")
 	for done := 0; done < nProgram; done += 500 {
 		batch = batch[:0]
 		for i := 0; i < 500 && done+i < nProgram; i++ {
@@ -506,6 +569,7 @@ func main() {
 		}
 		h.runBatch(batch)
 	}
+	phase("corpus")
 	for done := 0; done < nCorpus; done += 300 {
 		batch = batch[:0]
 		for i := 0; i < 300 && done+i < nCorpus; i++ {
@@ -514,8 +578,10 @@ func main() {
 		h.runBatch(batch)
 	}
 
+	phase("gcc-drain")
 	close(h.ccJobs)
 	h.ccWG.Wait()
+	phase("minimise")
 	sort.SliceStable(h.ccFails, func(i, j int) bool { return h.ccFails[i].c.ID < h.ccFails[j].c.ID })
 	all := append(append([]failure(nil), h.fails...), h.ccFails...)
 	sort.SliceStable(all, func(i, j int) bool { return all[i].c.ID < all[j].c.ID })
@@ -542,10 +608,15 @@ func main() {
 		r.Fail(f.key, f.desc, replayText(c, note))
 	}
 
+	phase("end")
+	if debugSlow {
+		fmt.Fprintf(os.Stderr, "wall seconds by phase: %v\n", phaseWall)
+	}
 	r.Extra("cpu_ms_by_family_and_stage", h.cpuByFam)
 	r.Extra("oracle_cases", h.nextID)
 	r.Extra("gcc_runs", h.ccRuns)
 	r.Extra("gcc_skipped_identical_c", h.ccCached)
+	r.Extra("gcc_accepted_with_precompiled_base", h.ccPCH)
 	r.Extra("workers", nw)
 	r.Finish("sources: unmutated std/ + hello-wuffs-c packages; every lexeme of every statement/declaration template deleted or doubled; " +
 		"tokenizer limits; nesting depth ladders of every recursive construct; random bytes and token soup; snippet programs and corpus packages under 1–3 " +
